@@ -32,7 +32,9 @@ CONFIGS = [(5, 60, 1.2), (2, 10, 1.5), (3, 20, 2.0)]
 
 def models(prop, tier):
   return [dict(module='Resurrector', cfg='Resurrector_q.cfg' if tier == 'quick' else 'Resurrector_t.cfg', coverage=True,
-               what='fail-fast mode, retry loop (sleep, create, open, swap in / close and back off), Close at any point, deferred fault signal')]
+               what='fail-fast mode, retry loop (sleep, create, open, swap in / close and back off), Close at any point, deferred fault signal'),
+          dict(module='Observable', cfg='Observable_q.cfg', coverage=True,
+               what='the fault-signal primitive: synchronous value, deferred notification, subscribers read when the notification runs, one-shot subscribers')]
 
 
 def _gen(rng, i):
@@ -541,5 +543,9 @@ def replay_behaviours(prop, tier, seed):
   summ = {'model': 'Resurrector', 'behaviours_replayed': len(behs),
           'steps_compared': sum(x['ok']['steps'] for x in res), 'drift': len(drift)}
   summ.update(gstats)
+  from harness.engines import observable
+  osumm, odrift = observable.replay(int(seed))
+  summ['observable'] = osumm
+  drift = drift + odrift
   return {'summary': summ,
           'traces': [], 'drift': drift}
